@@ -162,7 +162,23 @@ impl Scenario for EventScenario {
     }
 
     fn execute(&self, case: &SoutCase, log: bool) -> Outcome {
-        sout::execute("C03", case, case.chunk_seed, log, |c| LedgerOracle::new(c))
+        // "unless displaced by an overflow that it reports": the indication half of that clause is C13's overflow rule, run
+        // here on this scenario's histories as well
+        sout::execute("C03", case, case.chunk_seed, log, |c| sout::WithSecond {
+            a: LedgerOracle::new(c),
+            b: crate::verif::props::c13::IinOracle::new(c),
+            keep: |v| {
+                if v.key == "overflow-bit not-set" {
+                    Some(Violation::new(
+                        "C03/discard-not-reported",
+                        "overflow-indication-missing",
+                        v.detail,
+                    ))
+                } else {
+                    None
+                }
+            },
+        })
     }
 }
 
